@@ -1,4 +1,4 @@
-HOOK_COMMITS = ["345b098", "e796886"]
+HOOK_COMMITS = ["345b098", "e796886", "a208908", "9106f22"]
 NOTES = ("Every check rebuilds the harness from /repo's working tree (go build -tags verif), regenerates the extracted "
          "tables, rebuilds and audits the Lean theorems (no sorry/axioms beyond propext, Classical.choice, Quot.sound), "
          "then runs the correspondence between the Lean model driver and the real code. See DESIGN.md.")
